@@ -117,7 +117,7 @@ PROPS = {
     "C01": {
         "streams": [
             {"name": "pa", "module": "pam", "quick": 2500, "thorough": 40000, "profiles": ["debug", "release"],
-             "oracle_prefix": "o_c01"},
+             "oracle_prefix": ["o_c01", "o_rt", "o_c05"]},
             {"name": "o_c01", "module": "pa", "quick": 4000, "thorough": 60000, "kind": "oracle", "profiles": ["debug", "release"],
              "args": {"kind": "chunk"}},
         ],
@@ -165,7 +165,7 @@ PROPS = {
         "streams": [
             {"name": "o_c04", "module": "pa", "quick": 4000, "thorough": 60000, "kind": "oracle", "profiles": ["debug", "release"],
              "args": {"kind": "fault"}},
-            {"name": "pa", "module": "pam", "quick": 2000, "thorough": 30000, "profiles": ["debug"], "oracle_prefix": "o_c01"},
+            {"name": "pa", "module": "pam", "quick": 2000, "thorough": 30000, "profiles": ["debug"], "oracle_prefix": ["o_c01", "o_rt", "o_c05"]},
             {"name": "pa_fixed", "module": "fixed", "quick": 0, "thorough": 0, "kind": "oracle", "profiles": ["debug", "release"]},
         ],
         "rule": "documents for all seven parsers x source schedules, the source failing after k bytes (k = 0, end-1, end, line "
@@ -184,7 +184,7 @@ PROPS = {
             {"name": "o_c09", "module": "pa", "quick": 2500, "thorough": 30000, "kind": "oracle", "profiles": ["debug", "release"],
              "args": {"kind": "line"}},
             {"name": "rd", "module": "rd", "quick": 2000, "thorough": 30000, "profiles": ["debug"], "oracle_prefix": "o_rd"},
-            {"name": "pa", "module": "pam", "quick": 1500, "thorough": 20000, "profiles": ["debug"], "oracle_prefix": "o_c01"},
+            {"name": "pa", "module": "pam", "quick": 1500, "thorough": 20000, "profiles": ["debug"], "oracle_prefix": ["o_c01", "o_rt", "o_c05"]},
         ],
         "rule": "documents rendered line by line, the source handing out exactly one line per read: item i must be returned after "
                 "at most the reads that deliver the line completing it (header, clauses, AIGER section entries, BTOR2 lines); reader "
@@ -199,7 +199,7 @@ PROPS = {
         "streams": [
             {"name": "o_c05", "module": "pa", "quick": 5000, "thorough": 80000, "kind": "oracle", "profiles": ["debug", "release"],
              "args": {"kind": "safe"}},
-            {"name": "pa", "module": "pam", "quick": 2000, "thorough": 30000, "profiles": ["debug", "release"], "oracle_prefix": "o_c05"},
+            {"name": "pa", "module": "pam", "quick": 2000, "thorough": 30000, "profiles": ["debug", "release"], "oracle_prefix": ["o_c05", "o_c01", "o_rt"]},
             {"name": "rn", "module": "rn", "quick": 1000, "thorough": 20000, "profiles": ["debug"], "oracle_prefix": "o_rn"},
             {"name": "pa_fixed", "module": "fixed", "quick": 0, "thorough": 0, "kind": "oracle", "profiles": ["debug", "release"]},
         ],
@@ -219,7 +219,7 @@ PROPS = {
             {"name": "limits", "module": "pa", "quick": 300, "thorough": 300, "kind": "oracle", "profiles": ["debug", "release"],
              "args": {"kind": "limits"}},
             {"name": "tx_digits", "module": "tx", "quick": 2000, "thorough": 20000, "profiles": ["debug", "release"], "args": {"kind": "digits"}},
-            {"name": "pa", "module": "pam", "quick": 2000, "thorough": 30000, "profiles": ["debug"], "oracle_prefix": "o_c01"},
+            {"name": "pa", "module": "pam", "quick": 2000, "thorough": 30000, "profiles": ["debug"], "oracle_prefix": ["o_c01", "o_rt", "o_c05"]},
         ],
         "rule": "values generated first, rendered with random layout, expected items computed independently of the parsers "
                 "(Python big integers); limit cases: every declared limit and every type limit at value-1, value, value+1 (literals vs "
@@ -233,7 +233,7 @@ PROPS = {
         "streams": [
             {"name": "o_exp", "module": "pa", "quick": 4000, "thorough": 60000, "kind": "oracle", "profiles": ["debug", "release"],
              "args": {"kind": "expect"}},
-            {"name": "pa", "module": "pam", "quick": 2500, "thorough": 40000, "profiles": ["debug"], "oracle_prefix": "o_c01"},
+            {"name": "pa", "module": "pam", "quick": 2500, "thorough": 40000, "profiles": ["debug"], "oracle_prefix": ["o_c01", "o_rt", "o_c05"]},
         ],
         "rule": "abstract values (header, clauses, solver log status/assignment) rendered with random layout choices: runs of "
                 "spaces/tabs, trailing blanks, blank lines, comment lines before the header / between clauses / inside a clause, "
@@ -250,7 +250,7 @@ PROPS = {
              "args": {"kind": "limits"}},
             {"name": "o_c05", "module": "pa", "quick": 2000, "thorough": 30000, "kind": "oracle", "profiles": ["debug"],
              "args": {"kind": "safe"}},
-            {"name": "pa", "module": "pam", "quick": 2500, "thorough": 40000, "profiles": ["debug"], "oracle_prefix": "o_c05"},
+            {"name": "pa", "module": "pam", "quick": 2500, "thorough": 40000, "profiles": ["debug"], "oracle_prefix": ["o_c05", "o_c01", "o_rt"]},
             {"name": "pa_fixed", "module": "fixed", "quick": 0, "thorough": 0, "kind": "oracle", "profiles": ["debug"]},
         ],
         "rule": "well-formed documents of all seven formats with one known token replaced by garbage / an out-of-range number: the "
@@ -268,7 +268,7 @@ PROPS = {
              "args": {"kind": "rt"}},
             {"name": "o_exp", "module": "pa", "quick": 3000, "thorough": 40000, "kind": "oracle", "profiles": ["debug"],
              "args": {"kind": "expect"}},
-            {"name": "pa", "module": "pam", "quick": 2500, "thorough": 40000, "profiles": ["debug"], "oracle_prefix": "o_c01"},
+            {"name": "pa", "module": "pam", "quick": 2500, "thorough": 40000, "profiles": ["debug"], "oracle_prefix": ["o_c01", "o_rt", "o_c05"]},
             {"name": "wr", "module": "wr", "quick": 1500, "thorough": 20000, "profiles": ["debug"], "oracle_prefix": "o_wr"},
             {"name": "tx_digits", "module": "tx", "quick": 1500, "thorough": 20000, "profiles": ["debug"], "args": {"kind": "digits"}},
             {"name": "pa_fixed", "module": "fixed", "quick": 0, "thorough": 0, "kind": "oracle", "profiles": ["debug"]},
